@@ -40,6 +40,16 @@ type CaseIn struct {
 	FaultPos  int      `json:"fault_pos"`
 	FaultKind string   `json:"fault_kind"`
 	PrevDiff  bool     `json:"prev_diff,omitempty"` // status file already says compare DIFF
+	// time-out (seconds) written to the configuration of the program under test; 0 = 1 second.
+	// The parallel phase uses 1 second; a case that disagrees is run again alone with a longer one.
+	TimeoutS int `json:"timeout_s,omitempty"`
+}
+
+func (c CaseIn) timeout() int {
+	if c.TimeoutS > 0 {
+		return c.TimeoutS
+	}
+	return 1
 }
 
 type CaseOut struct {
@@ -58,6 +68,7 @@ type CaseOut struct {
 	ScpRouting bool     `json:"scp_routing"`
 	ScpTables  bool     `json:"scp_tables"`
 	WallMs     int64    `json:"wall_ms"`
+	Hung       bool     `json:"hung,omitempty"` // still running after the bound: killed by the harness
 }
 
 const devName = "router"
@@ -73,7 +84,7 @@ func selfExe() string {
 func runCase(c CaseIn) CaseOut {
 	start := time.Now()
 	var out CaseOut
-	work, err := os.MkdirTemp("", "c09case")
+	work, err := os.MkdirTemp(os.Getenv("C09_WORKBASE"), "c09case")
 	if err != nil {
 		panic(err)
 	}
@@ -103,7 +114,7 @@ func runCase(c CaseIn) CaseOut {
 	}
 	os.WriteFile(filepath.Join(work, "credentials"), []byte("* admin secret\n"), 0644)
 	os.WriteFile(filepath.Join(work, ".netspoc-approve"), []byte(fmt.Sprintf(
-		"basedir = %s\ncheckbanner = NetSPoC\nsystemuser = admin\ntimeout = 1\nlogin_timeout = 1\n", work)), 0644)
+		"basedir = %s\ncheckbanner = NetSPoC\nsystemuser = admin\ntimeout = %d\nlogin_timeout = %d\n", work, c.timeout(), c.timeout())), 0644)
 	os.Setenv("HOME", work)
 	os.Setenv("TEST_TIME", "2024-Sep-29 16:19:50")
 	os.Unsetenv("LANG")
@@ -116,11 +127,11 @@ func runCase(c CaseIn) CaseOut {
 	os.Mkdir(simDir, 0755)
 	var hs *httpSim
 	if c.Scen.HTTP != nil {
-		hs = newHTTPSim(c.Scen.Backend, c.Scen.HTTP, c.FaultPos, c.FaultKind)
+		hs = newHTTPSim(c.Scen.Backend, c.Scen.HTTP, c.FaultPos, c.FaultKind, c.timeout())
 		os.Setenv("SIMULATE_ROUTER", hs.srv.URL)
 	} else {
 		cfg := simCfg{Name: devName, Preamble: c.Scen.Preamble, Table: c.Scen.Table,
-			FaultPos: c.FaultPos, FaultKind: c.FaultKind, ErrText: errTextOf(c.Scen.Backend)}
+			FaultPos: c.FaultPos, FaultKind: c.FaultKind, ErrText: errTextOf(c.Scen.Backend), TimeoutS: c.timeout()}
 		data, _ := json.Marshal(cfg)
 		os.WriteFile(filepath.Join(simDir, "sim.json"), data, 0644)
 		if c.Scen.Shape["realscp"] == 1 {
